@@ -61,6 +61,12 @@ def judge(ctx, kind, n, m, res, rp):
         ctx.rng.shuffle(rows)
         tab = pd.DataFrame(rows, columns=["CDR3B", "CDR3A"])
         check(ctx, f"pc(table sample with counts {n}, every second category with a missing chain)", lambda: prs.pc(tab), res["pc"], "pc/table_missing", rp)
+        # categories whose cells run into each other when written without a separator: ("1", "11..1"), ("11", "1..1"), ...
+        K = len(n)
+        amb = [("1" * (i + 1), "1" * (K - i)) for i, c in enumerate(n) for _ in range(c)]
+        ctx.rng.shuffle(amb)
+        check(ctx, f"pc(table sample with counts {n}, rows ('1'*(i+1), '1'*(K-i)))", lambda: prs.pc(pd.DataFrame(amb, columns=["a", "b"])), res["pc"], "pc/table_ambiguous", rp)
+        check(ctx, f"pc(table sample with counts {n}, integer cells (1..1, 1..1))", lambda: prs.pc(pd.DataFrame([(int(a), int(b)) for a, b in amb], columns=["a", "b"])), res["pc"], "pc/table_ambiguous_int", rp)
     if kind == "var":
         check(ctx, f"varpc_n(np.array({n}))", lambda: prs.varpc_n(np.array(n)), res["var"], "varpc_n", rp)
         own = np.array(n, dtype=float)
@@ -89,6 +95,11 @@ def judge(ctx, kind, n, m, res, rp):
         yi = np.repeat(np.arange(len(m)) + 3, m)
         ctx.rng.shuffle(xi)
         check(ctx, f"pc(int sample {n}, int sample {m})", lambda: prs.pc(xi, yi), res["pc"], "pc/two/int", rp)
+        import pandas as pd
+        K = max(len(n), len(m))
+        ta = pd.DataFrame([("1" * (i + 1), "1" * (K - i)) for i, c in enumerate(n) for _ in range(c)], columns=["a", "b"])
+        tb = pd.DataFrame([("1" * (i + 1), "1" * (K - i)) for i, c in enumerate(m) for _ in range(c)], columns=["a", "b"])
+        check(ctx, f"pc(table sample {n}, table sample {m}; rows ('1'*(i+1), '1'*(K-i)))", lambda: prs.pc(ta, tb), res["pc"], "pc/two/table_ambiguous", rp)
         check(ctx, f"pc(int list {m}, int list {n})", lambda: prs.pc([int(v) for v in yi], [int(v) * 1 for v in xi]), res["pc"], "pc/two/intlist", rp)
 
 
